@@ -231,17 +231,38 @@ def make_history(conf: dict, seedkind: str, rng, idx: int) -> dict:
     if fresh:
         ops.append({"op": "new", "inst": 1})
     obs = 1 if fresh else 0
-    ops.append({"op": "call", "inst": obs, "shape": shape, "acs": False, "seed": seed})
-    ops.append({"op": "call", "inst": obs, "shape": shape, "acs": True, "seed": seed})
+    # the observed calls, each immediately preceded by the *other* kind of call with *another* seed on the same instance
+    # (a per-instance memo of "the last mask" / "the last ACS" must not leak into the next call):
+    #   pattern A: mask(a1) ACS(b)* mask(a2) ACS(b)* mask(b)*      pattern B: ACS(a1) mask(b)* ACS(a2) mask(b)* ACS(b)*
+    observed = []
+    first_acs = (idx // 2 + idx) % 2 == 1          # pattern B (alternates over seed kinds and repetitions)
+    for rep_i in range(2):
+        ops.append({"op": "call", "inst": obs, "shape": shape, "acs": first_acs,
+                    "seed": _seed_of(rng.choice(["int", "tuple"]), rng)})
+        ops.append({"op": "call", "inst": obs, "shape": shape, "acs": not first_acs, "seed": seed})
+        observed.append(len(ops) - 1)
+    ops.append({"op": "call", "inst": obs, "shape": shape, "acs": first_acs, "seed": seed})
+    observed.append(len(ops) - 1)
     return {"confs": confs, "ops": ops, "shape": shape, "seed": seed, "seedkind": seedkind, "fresh": fresh,
+            "observed": observed, "pattern": "B" if first_acs else "A",
             "nontrivial": has_call0 and has_pert and max(shape[:-1]) >= 2, "idx": idx}
 
 
 def reference_job(h: dict) -> dict:
-    return {"confs": [h["confs"][0]],
+    # the same calls alone, each on its own fresh instance, in another process: steps[1] = mask, steps[3] = ACS
+    return {"confs": [h["confs"][0], h["confs"][0]],
             "ops": [{"op": "new", "inst": 0},
                     {"op": "call", "inst": 0, "shape": h["shape"], "acs": False, "seed": h["seed"]},
-                    {"op": "call", "inst": 0, "shape": h["shape"], "acs": True, "seed": h["seed"]}]}
+                    {"op": "new", "inst": 1},
+                    {"op": "call", "inst": 1, "shape": h["shape"], "acs": True, "seed": h["seed"]}]}
+
+
+def _observed(h):
+    """indices of the observed ops; (last observed mask call, last observed ACS call)"""
+    obs = h.get("observed") or [len(h["ops"]) - 2, len(h["ops"]) - 1]
+    m = [i for i in obs if not h["ops"][i]["acs"]]
+    a = [i for i in obs if h["ops"][i]["acs"]]
+    return obs, m[-1], a[-1]
 
 
 _RUN: dict = {}
@@ -414,9 +435,10 @@ def correspondence(ctx: Ctx):
         conf = h["confs"][0]
         yield {"line": line("hist", *groups), "impl": (lambda a=ans: a), "nontrivial": h["nontrivial"],
                "key": ("hist", h["idx"], json.dumps(h["ops"], sort_keys=True)),
-               "bucket": f"hist/{conf['gen']}/{conf['mode']}/{h['seedkind']}/{'fresh' if h['fresh'] else 'reused'}"}
+               "bucket": f"hist/{conf['gen']}/{conf['mode']}/{h['seedkind']}/{'fresh' if h['fresh'] else 'reused'}/{h.get('pattern', '')}"}
         # ACS branch vs mask branch of the observed call (last two steps)
-        mask_call, acs_call = res["steps"][-2]["call"], res["steps"][-1]["call"]
+        _, mi, ai = _observed(h)
+        mask_call, acs_call = res["steps"][mi]["call"], res["steps"][ai]["call"]
         if mask_call["err"] or acs_call["err"]:
             continue
         reqs2: dict = {}
@@ -446,7 +468,8 @@ def _check_history(h, table):
     res, ref = h["res"], h["ref"]
     conf = h["confs"][0]
     tag = f"{conf['gen']}/{conf['mode']}"
-    rep = {"op": "history", "confs": h["confs"], "ops": h["ops"], "shape": h["shape"], "seed": h["seed"]}
+    rep = {"op": "history", "confs": h["confs"], "ops": h["ops"], "shape": h["shape"], "seed": h["seed"],
+           "observed": h.get("observed")}
     prev = res["initial"]
     for op, st in zip(h["ops"], res["steps"]):
         if op["op"] in ("call", "transform"):
@@ -469,13 +492,18 @@ def _check_history(h, table):
                                         f"executed `{e.get('method', e['kind'])}` at {e['func']}:{e['lineno']} is not an in-scope "
                                         f"site of the RNG-access table", dict(rep, failing_op=op, event=e))
         prev = st["snap"]
-    obs_mask, obs_acs = res["steps"][-2]["call"], res["steps"][-1]["call"]
-    ref_mask, ref_acs = ref["steps"][-2]["call"], ref["steps"][-1]["call"]
-    for what, a, b in (("mask", obs_mask, ref_mask), ("acs", obs_acs, ref_acs)):
+    obs_idx, mi, ai = _observed(h)
+    obs_mask, obs_acs = res["steps"][mi]["call"], res["steps"][ai]["call"]
+    ref_mask, ref_acs = ref["steps"][1]["call"], ref["steps"][-1]["call"]
+    # every observed call (sampling masks AND autocalibration masks) bitwise against the same call on a fresh instance
+    for oi in obs_idx:
+        what = "acs" if h["ops"][oi]["acs"] else "mask"
+        a, b = res["steps"][oi]["call"], (ref_acs if what == "acs" else ref_mask)
         if (a["err"], a.get("mask")) != (b["err"], b.get("mask")):
+            rep2 = dict(rep, observed_op_index=oi, previous_op=h["ops"][oi - 1])
             yield Violation(f"seeded-{what}-depends-on-history/{tag}",
                             f"same shape + seed gives a different {what} after a history than alone in a fresh process",
-                            dict(rep, what=what, observed={"err": a["err"], "mask": a.get("mask"), "sum": a.get("sum")},
+                            dict(rep2, what=what, observed={"err": a["err"], "mask": a.get("mask"), "sum": a.get("sum")},
                                  expected={"err": b["err"], "mask": b.get("mask"), "sum": b.get("sum")}))
     # the data pipeline's route: CreateSamplingMask on a sample of the same file / shape gives the observed mask
     for op, st in zip(h["ops"], res["steps"]):
@@ -533,7 +561,7 @@ def oracle(ctx: Ctx, deep: bool = False):
                   sample={"gen": conf["gen"], "mode": conf["mode"], "shape": h["shape"], "seed": h["seed"],
                           "ops": [o["op"] for o in h["ops"]]},
                   bucket=f"oracle/{conf['gen']}/{conf['mode']}")
-        if h["res"]["steps"][-2]["call"]["err"]:
+        if h["res"]["steps"][_observed(h)[1]]["call"]["err"]:
             n_err += 1
         yield from _check_history(h, table)
     ctx.notes.append(f"oracle: {len(store['histories'])} histories, observed call raised in {n_err}; calls by outcome: "
@@ -545,7 +573,8 @@ def replay(rep: dict) -> bool:
         return True
     wa, wb = RC.Worker(), RC.Worker()
     try:
-        h = {"confs": rep["confs"], "ops": rep["ops"], "shape": rep["shape"], "seed": rep["seed"], "idx": 0}
+        h = {"confs": rep["confs"], "ops": rep["ops"], "shape": rep["shape"], "seed": rep["seed"], "idx": 0,
+             "observed": rep.get("observed")}
         try:
             h["res"] = wa.call(MOD, "job_history", {"confs": h["confs"], "ops": h["ops"]}, budget=60)
             h["ref"] = wb.call(MOD, "job_history", reference_job(h), budget=60)
